@@ -300,6 +300,7 @@ def run(ctx):
                               impl=r)
     purge_preview_probe(ctx)
     purge_fails_probe(ctx)
+    purge_with_upgrade_probe(ctx)
     custom_label_probe(ctx)
     other_database_probe(ctx)
     split_batches_probe(ctx)
@@ -509,6 +510,56 @@ def split_batches_probe(ctx):
     evs = [x for x in r['order'] if x[0] == 'applying_evolution' and x[1] == 'vapp']
     if len(evs) != 1:
         ctx.fail(None, 'applying_evolution was sent %d times for the app although one batch had SQL for it' % len(evs), rep)
+
+
+def purge_with_upgrade_probe(ctx):
+    """a run of two task classes that both succeed: an installed app has a new evolution to apply and a stale app is
+    purged in the same run (`evolve --purge --execute` at a release that also drops an app).  The new label is
+    recorded exactly once, attached to the version this run saved; the same run once more records nothing"""
+    from collections import Counter
+    from django.db import connection
+    from django_evolution.models import Evolution, Version
+    from django_evolution.signature import AppSignature, ModelSignature
+    evorig.fresh_databases()
+    evorig.clear_evolutions()
+    w = World(False)
+    w.n['vapp'] = 1
+    w.install()
+    run_step(w, None, False)
+    with connection.cursor() as cur:
+        cur.execute('CREATE TABLE "yapp_yo" ("id" integer NOT NULL PRIMARY KEY)')
+    v = Version.objects.current_version()
+    s = v.signature
+    a = AppSignature(app_id='yapp')
+    a.add_model_sig(ModelSignature(model_name='Yo', table_name='yapp_yo'))
+    s.add_app_sig(a)
+    v.signature = s
+    v.save()
+    w.n['vapp'] += 1
+    w.install()
+    rows = lambda: sorted(Evolution.objects.values_list('app_label', 'label', 'version_id'))
+    before = rows()
+    r = evorig.run_evolver(purge=True)
+    after = rows()
+    steps = ['install vapp', 'stale app yapp in the signature, with its table', 'vapp grows by one evolution',
+             'Evolver: evolve all apps + purge old apps -> %s' % r[0]]
+    ctx.count('purge_with_upgrade_probe:%s' % r[0])
+    ctx.case({'history': steps}, nontrivial=True, sample_cap=1)
+    rep = {'scenario': 'upgrade and purge in one run', 'history': steps, 'before': before, 'after': after}
+    if r[0] != 'ok':
+        ctx.fail(None, 'an upgrade that also purges a stale app fails: %s' % str(r[1])[:160], rep)
+        return
+    dup = [k for k, n in Counter((x[0], x[1]) for x in after).items() if n > 1]
+    if dup:
+        ctx.fail(None, 'after an upgrade that also purged a stale app these labels are recorded more than once: %s' % dup, rep)
+    new = [x for x in after if x not in before]
+    latest = Version.objects.order_by('-pk')[0].pk
+    if len(new) != 1 or new[0][2] != latest:
+        ctx.fail(None, 'an upgrade with one new evolution (and a purge) recorded %r; expected one row attached to '
+                 'version %s' % (new, latest), rep)
+    r2 = evorig.run_evolver(purge=True)
+    if rows() != after:
+        ctx.fail(None, 'the same run once more changed the recorded evolutions: %s -> %s' % (after, rows()), rep)
 
 
 def purge_fails_probe(ctx):
